@@ -240,7 +240,13 @@ class Emitter:
             out.append("/* block\n   comment */")
         if headers and self.flip(1, 2):
             self.labels.add("namespace")
-            out.append("namespace " + self.pick(["ns", "my.model", "Shop_1"]))
+            if self.flip(1, 3):
+                # the namespace may be spelled like a feature of the model (names live in different scopes)
+                from vf import build as _b
+                self.labels.add("namespace-named-like-a-feature")
+                out.append("namespace " + self.ident(self.pick(_b.names(model))))
+            else:
+                out.append("namespace " + self.pick(["ns", "my.model", "Shop_1"]))
         unit = self.pick(["\t", "\t", "  ", "    "])
         if unit != "\t":
             self.labels.add("space-indentation")
